@@ -37,11 +37,11 @@ var Prop = &engine.Prop{
 		"for the proc channel, whether calls accepted before Stop still run after Stop is unspecified (the statement names line, multi-line and runner queue only); only the invariants are judged there after Stop",
 		"a caller whose context is already done when its result is also available may receive either (own result or own context error)",
 	},
-	ShardsQuick: 8, ShardsThorough: 16,
+	ShardsQuick: 8, ShardsThorough: 48,
 	Setup: func(c *engine.Ctx) { Q = engine.NewQuiescer() },
 	Kinds: []engine.Kind{
-		{Name: "gate", Quick: 8000, Thorough: 300000, Fn: gateCase},
-		{Name: "stress", Quick: 24, Thorough: 600, Repeat: 20, Fn: stressCase},
+		{Name: "gate", Quick: 8000, Thorough: 900000, Fn: gateCase},
+		{Name: "stress", Quick: 24, Thorough: 1800, Repeat: 20, Fn: stressCase},
 	},
 	Floors: map[string]int64{
 		"queued_behind_running":   500,
